@@ -174,13 +174,16 @@ def clip_region(H):
     nested = H.case("clipPath_has_own_clip", (True, False))
     cp_tr = H.case("clipPath_has_transform", (True, False))
     child_tr = H.case("child_has_transform", (True, False))
+    cp_rule = H.case("clipPath_sets_clip_rule", (True, False))
     ctm = Affine2D(*H.reals("ctm", 6))
     cptok, cpm = _tok(H, "cp")
     chtok, chm = _tok(H, "ch")
     in_tok, inm = _tok(H, "in")
     c1 = _el("rect", dict({"width": "3", "height": "4"}, **({"transform": chtok} if child_tr else {})))
-    c2 = _el("circle", {"r": "5"})
+    c2 = _el("circle", {"r": "5", "clip-rule": "nonzero"})
     attrs = {"id": "outer"}
+    if cp_rule:
+        attrs["clip-rule"] = "evenodd"
     if cp_tr:
         attrs["transform"] = cptok
     if nested:
@@ -228,6 +231,9 @@ def clip_region(H):
         return
     chain_outer = ([cpm] if cp_tr else []) + [ctm]
     H.prove(type(placed[0][0]).__name__ == "SVGRect" and type(placed[1][0]).__name__ == "SVGCircle", "clip.children_read_in_document_order")
+    # clip-rule is an inherited property: a child without its own value takes the clipPath's, a child's own value wins
+    H.prove(placed[0][0].clip_rule == ("evenodd" if cp_rule else "nonzero") and placed[1][0].clip_rule == "nonzero", "clip.children_inherit_clip_rule_from_the_clipPath",
+            detail=f"{placed[0][0].clip_rule}, {placed[1][0].clip_rule}")
     H.prove(H.close(map_pt(placed[0][1], p), through(([chm] if child_tr else []) + chain_outer, p)), "clip.child_placed_by_own_then_clipPath_then_CTM")
     H.prove(H.close(map_pt(placed[1][1], p), through(chain_outer, p)), "clip.untransformed_child_placed_by_clipPath_then_CTM")
     if nested:
